@@ -85,6 +85,24 @@ Proof.
   - destruct k; discriminate.
   - rewrite E1, E2 in He. apply app_inv_head in He. apply app_inv_tail in He. exact He.
 Qed.
+
+(** ** the host name that goes into a conflict-copy name and into the record (bidir.rs `host_id`): `$HOSTNAME` when it is
+    set (even when empty: the `hostname` command is asked only when the variable is UNSET), else the trimmed output of
+    `hostname`; an empty result of either is replaced by the word `host` - the name is never empty *)
+Lemma tie_host_id (hv hc : option (list Z)) :
+  g_host_id hv hc = match (match hv with Some v => Some v | None => option_map trim_ws hc end) with
+                    | Some (c :: r) => c :: r
+                    | _ => [104; 111; 115; 116]
+                    end.
+Proof.
+  unfold g_host_id. destruct hv as [v|]; [|destruct hc as [o|]; cbn [option_map]].
+  - destruct v as [|c r]; [reflexivity|]. unfold lenZ. cbn [length]. destruct (Z.eqb_spec (Z.of_nat (S (length r))) 0) as [E|E]; [lia|reflexivity].
+  - destruct (trim_ws o) as [|c r]; [reflexivity|]. unfold lenZ. cbn [length]. destruct (Z.eqb_spec (Z.of_nat (S (length r))) 0) as [E|E]; [lia|reflexivity].
+  - reflexivity.
+Qed.
+
+Theorem host_id_never_empty (hv hc : option (list Z)) : g_host_id hv hc <> [].
+Proof. rewrite tie_host_id. destruct (match hv with Some v => Some v | None => option_map trim_ws hc end) as [[|c r]|]; discriminate. Qed.
 End Tie.
 
 Definition pair_key_is_translation : Prop :=
@@ -93,9 +111,12 @@ Definition pair_key_is_translation : Prop :=
     ((forall d d', hex_of d = hex_of d' -> d = d') -> (forall u v, Hh u = Hh v -> u = v) -> (forall p, ~ In 0 (canon p)) ->
      forall a b a' b', g_root_pair_hash D Hh hex_of canon a b = g_root_pair_hash D Hh hex_of canon a' b' -> canon a = canon a' /\ canon b = canon b') /\
     (forall home_var key, g_archive_path home_var key = pjoin (arch_dir home_var) (key ++ [46; 106; 115; 111; 110])) /\
-    (forall home_var k k', relative k -> relative k' -> k <> [] -> k' <> [] -> g_archive_path home_var k = g_archive_path home_var k' -> k = k').
+    (forall home_var k k', relative k -> relative k' -> k <> [] -> k' <> [] -> g_archive_path home_var k = g_archive_path home_var k' -> k = k') /\
+    (forall hv hc, g_host_id hv hc <> []) /\
+    (forall v hc, v <> [] -> g_host_id (Some v) hc = v).
 Lemma pair_key_is_translation_holds : pair_key_is_translation.
-Proof. intros D Hh hex_of canon. split; [apply tie_root_pair_hash|]. split; [intros H1 H2 H3 a b a' b'; apply pair_key_identifies_the_ordered_pair; assumption|]. split; [apply tie_archive_path|apply archive_path_identifies_the_key]. Qed.
+Proof. intros D Hh hex_of canon. split; [apply tie_root_pair_hash|]. split; [intros H1 H2 H3 a b a' b'; apply pair_key_identifies_the_ordered_pair; assumption|]. split; [apply tie_archive_path|]. split; [apply archive_path_identifies_the_key|]. split; [apply host_id_never_empty|].
+  intros v hc Hv. rewrite tie_host_id. destruct v; [congruence|reflexivity]. Qed.
 
 Example pair_key_nonvacuous :
   g_root_pair_hash (list Z) (fun x => x) (fun x => x) (fun x => x) [47; 97] [47; 98] = [47; 97; 0; 47; 98] /\
@@ -106,3 +127,7 @@ Example archive_path_nonvacuous :
   g_archive_path (Some [47; 104]) [97; 98] = [47; 104; 47; 46; 99; 111; 112; 105; 97; 47; 97; 114; 99; 104; 105; 118; 101; 47; 97; 98; 46; 106; 115; 111; 110] /\
   g_archive_path None [97] = [47; 116; 109; 112; 47; 46; 99; 111; 112; 105; 97; 47; 97; 114; 99; 104; 105; 118; 101; 47; 97; 46; 106; 115; 111; 110].
 Proof. split; reflexivity. Qed.
+
+Example host_id_nonvacuous :
+  g_host_id None (Some [32; 98; 111; 120; 10]) = [98; 111; 120] /\ g_host_id (Some []) (Some [98]) = [104; 111; 115; 116] /\ g_host_id None None = [104; 111; 115; 116].
+Proof. repeat split; reflexivity. Qed.
